@@ -5,11 +5,16 @@
 package document
 
 import (
+	"errors"
 	"fmt"
 	"strings"
 
 	"github.com/yorkie-team/yorkie/internal/zzvsym"
+	"github.com/yorkie-team/yorkie/pkg/document/json"
+	"github.com/yorkie-team/yorkie/pkg/document/presence"
 )
+
+var errRebuild = errors.New("rebuild")
 
 // vModel is the plain sequential reference model of C07.
 type vModel struct {
@@ -140,11 +145,15 @@ func VerifR7LocalModel() {
 			s.sync(0, a)
 		}
 		check(vName("step", i))
-		if zzvsym.IntRange(vName("gc", i), 0, 1) == 1 {
+		switch zzvsym.IntRange(vName("then", i), 0, 2) {
+		case 1: // sync: the response vector lets A purge what it can
 			s.sync(0, a)
 			s.sync(1, b)
 			s.sync(0, a)
 			check(vName("aftergc", i))
+		case 2: // a failing update drops the working copy: the structures are rebuilt element by element
+			_ = a.Update(func(root *json.Object, p *presence.Presence) error { return errRebuild })
+			check(vName("afterrebuild", i))
 		}
 	}
 	zzvsym.Reach("model-compared")
